@@ -375,6 +375,23 @@ func suffixOrSame(v, ph ssa.Value, depth int) bool {
 // lowAtLeastOne: the lower bound is c + (non-negative terms) with c >= 1; results of strings.Index* count as non-negative
 // when the loop leaves on their -1.
 func lowAtLeastOne(low ssa.Value, fn *ssa.Function, body map[*ssa.BasicBlock]bool) bool {
+	return lowAtLeastOneRec(low, fn, body, map[*ssa.Phi]bool{})
+}
+
+func lowAtLeastOneRec(low ssa.Value, fn *ssa.Function, body map[*ssa.BasicBlock]bool, seen map[*ssa.Phi]bool) bool {
+	// a join of bounds that are each at least one
+	if ph, ok := low.(*ssa.Phi); ok && !strings.HasPrefix(ph.Comment, "rangeindex") {
+		if seen[ph] {
+			return true
+		}
+		seen[ph] = true
+		for _, e := range ph.Edges {
+			if !lowAtLeastOneRec(e, fn, body, seen) {
+				return false
+			}
+		}
+		return len(ph.Edges) > 0
+	}
 	lf := linOf(low, 0)
 	if lf["1"] < 1 {
 		return false
@@ -387,17 +404,23 @@ func lowAtLeastOne(low ssa.Value, fn *ssa.Function, body map[*ssa.BasicBlock]boo
 			return false
 		}
 	}
-	// every symbol that is the result of an Index-like search must be guarded
-	okGuard := true
+	// every term of the sum is a constant, a guarded Index-like search, or a value that is never negative
+	okTerms := true
 	var walk func(v ssa.Value, d int)
 	walk = func(v ssa.Value, d int) {
 		if d > 8 {
+			okTerms = false
 			return
 		}
 		switch x := v.(type) {
+		case *ssa.Const:
+			return
 		case *ssa.BinOp:
-			walk(x.X, d+1)
-			walk(x.Y, d+1)
+			if x.Op == token.ADD {
+				walk(x.X, d+1)
+				walk(x.Y, d+1)
+				return
+			}
 		case *ssa.Call:
 			name := calleeFullName(&x.Call)
 			if strings.HasPrefix(name, "strings.Index") || strings.HasPrefix(name, "bytes.Index") {
@@ -412,13 +435,17 @@ func lowAtLeastOne(low ssa.Value, fn *ssa.Function, body map[*ssa.BasicBlock]boo
 					}
 				}
 				if !guarded {
-					okGuard = false
+					okTerms = false
 				}
+				return
 			}
+		}
+		if !nonNeg(v, 0, map[ssa.Value]bool{}) {
+			okTerms = false
 		}
 	}
 	walk(low, 0)
-	return okGuard
+	return okTerms
 }
 
 // suffixResult: result idx of the call is a strict suffix of the argument that is ph, on every return path of the callee.
